@@ -124,8 +124,12 @@ NAMES = {P_CURR: "curr", P_LEFT: "left", P_RIGHT: "right", P_LP: "left_parent", 
 def underflow_atomize(roles):
     """atoms: ('null', side) ('few', side) ('eq', a, b) for parent pointers, ('le', a, b) for fill levels"""
     def atomize(n, run):
+        # `if (p)` / `!p`: the pointer-to-bool conversion sits in the cast layers that strip_casts removes
+        pt, m = None, n
+        while m is not None and pt is None and m["k"] in ("ImplicitCastExpr", "ParenExpr") and kids(m):
+            pt = match.ptr_truth(m)
+            m = kids(m)[0]
         n = strip_casts(n)
-        pt = match.ptr_truth(n)
         if pt is not None:
             p = roles.param_of(pt)
             if p in (P_LEFT, P_RIGHT, P_PARENT, P_LP, P_RP):
